@@ -248,14 +248,17 @@ let case_retry k args lines =
            last_tx := None;
            Hashtbl.replace feats ("reply-" ^ kind) ();
            if int_of_string copies > 1 then Hashtbl.replace feats "dup" ();
+           let mk ?(drop = false) ?(bad = false) ?(formerr = false) ?(opt = !last_opt) ?(tc = false) ?err () =
+             { r_drop = drop; r_cookie_bad = bad; r_formerr = formerr; r_has_opt = opt; r_tc = tc; r_err = err } in
+           (* the driver's replies copy the query's additional section (OPT and cookie) unless stated *)
            let rk = match kind with
-             | "a" | "x" -> RkAnswer
-             | "s" -> RkErr aRES_ESERVFAIL | "n" -> RkErr aRES_ENOTIMP | "r" -> RkErr aRES_EREFUSED
-             | "c" -> RkTC
-             | "f" -> RkEdns
-             | "F" -> if !last_opt then RkFormerrOpt else RkEdns
-             | "b" -> RkBadCookie
-             | _ -> RkDrop in
+             | "a" | "x" -> mk ()
+             | "s" -> mk ~err:aRES_ESERVFAIL () | "n" -> mk ~err:aRES_ENOTIMP () | "r" -> mk ~err:aRES_EREFUSED ()
+             | "c" -> mk ~tc:true ()
+             | "f" -> mk ~formerr:true ~opt:false ()
+             | "F" -> mk ~formerr:true ()
+             | "b" -> if !last_opt then mk ~bad:true () else mk ()   (* without OPT the extended rcode cannot be encoded *)
+             | _ -> mk ~drop:true () in
            if tcp <> "-1" then begin
              let srv = !s_now in
              let one () = push_in (IReply (srv, tcp = "1", true, rk)) in
